@@ -1,4 +1,5 @@
 #!/bin/bash
+export VERIF_NO_PRUNE=1   # several trees are analysed over time / in parallel: keep their caches (tools/prune_cache.sh cleans up)
 # usage: tools/mutate.sh <file-in-repo> <sed-expr> <prop>...   — applies the edit, runs the checks, reverts
 set -u
 f=$1; expr=$2; shift 2
